@@ -349,7 +349,53 @@ def _install_streq():
 
     L.__eq__ = _eq
     L.__ne__ = _ne
+
+    # SymbolicBoundedIntTuple[slice] raises CrossHairInternal when more code point variables were
+    # created than the (now realised) length; the surplus variables are unconstrained and unused,
+    # so truncating to the realised length is sound.
+    from crosshair.util import CrossHairInternal
+
+    orig_gi = T.__getitem__
+
+    def _gi(self, argument):
+        try:
+            return orig_gi(self, argument)
+        except CrossHairInternal as e:
+            if "exceeded actual length" not in str(e):
+                raise
+            with NoTracing():
+                n = realize(self._len)
+                a = argument
+                return self._created_vars[:n][realize(a.start) : realize(a.stop) : realize(a.step)]
+
+    T.__getitem__ = _gi
     ASSUMPTIONS.append("plugin: symbolic str ==/!= compares lengths and code points irrespective of the backing container type (works around a CrossHair 0.0.110 defect where (s+'#')[:-1] == s is False)")
+
+
+# ---------------------------------------------------------------- exact symbolic_int / 2^k
+_EXACT_DIV = [False]
+
+
+def exact_int_div(on):
+    _EXACT_DIV[0] = bool(on)
+
+
+def _install_exact_div():
+    """int / 2^k when the path condition implies divisibility and |a| <= 2^53: the quotient is an exactly
+    representable double, so every later comparison / modulo has the same truth value on the integer term.
+    Only active for claims that opt in (exact_int_div)."""
+    orig = SymbolicInt.__truediv__
+
+    def _truediv(a, b):
+        if _EXACT_DIV[0] and type(b) is int and b > 0 and (b & (b - 1)) == 0:
+            with NoTracing():
+                sp = context_statespace()
+                lim = 2 ** 53
+                if (not sp.is_possible(a.var % b != 0)) and (not sp.is_possible(z3.Or(a.var > lim, a.var < -lim))):
+                    return SymbolicInt(a.var / b)
+        return orig(a, b)
+
+    SymbolicInt.__truediv__ = _truediv
 
 
 # ---------------------------------------------------------------- record which repo functions ran symbolically
@@ -434,6 +480,7 @@ def install():
     _install_stubs()
     _install_percent()
     _install_streq()
+    _install_exact_div()
     force_ieee_floats(True)
     ASSUMPTIONS.append("float model: z3 Float64, round-nearest-even (PreciseIeeeSymbolicFloat) unless the claim says real_floats")
 
